@@ -532,9 +532,17 @@ def r6_manager(ctx):
     sid, ns = f.params[1:3]
     n_pending = 0
     for p in run.paths:
-        pend = [c for c in p.conds if c.pol and c.text in (
-            '%s in self.pending_disconnect[%s]' % (sid, ns),
-            '%s in self.pending_disconnect.get(%s, [])' % (sid, ns))]
+        pend = []
+        for c in p.conds:
+            a = run.expand(c.atom)
+            if c.pol and isinstance(a, ast.Compare) and \
+                    isinstance(a.ops[0], ast.In) and \
+                    U(a.left) == sid and \
+                    U(a.comparators[0]).startswith(
+                        'self.pending_disconnect') and ns in {
+                            n.id for n in ast.walk(a.comparators[0])
+                            if isinstance(n, ast.Name)}:
+                pend.append(c)
         if pend:
             n_pending += 1
             ctx.check(p.exit == 'return' and is_const(p.value, False),
